@@ -8,6 +8,8 @@ CONSTANTS
   Names = {"x"}
   Keys <- MCKey1
   ValChoice <- MCVal
+  OpenCands <- Locs
+  MergeCands <- AllPairs
   MaxDepth = 3
   Record = TRUE
   Fat = FALSE
